@@ -223,6 +223,8 @@ func (s *Server) updateTypeCounts(typ string) func() {
 func addSubscription(m *match.Match, s *pb.SubscriptionList, c *matchClient) (remove func()) {
 	var removes []func()
 	prefix := path.ToStrings(s.Prefix, true)
+	// Cap the prefix so that the appends below copy it: AddQuery retains each query for its remove function.
+	prefix = prefix[:len(prefix):len(prefix)]
 	for _, sub := range s.Subscription {
 		p := sub.GetPath()
 		if p == nil {
